@@ -183,20 +183,21 @@ impl<'a> D4B<'a> {
             }
             if self.rng.chance(0.1) { let t = self.t(); self.edges.push((id, t, vec![])); }
         } else if vars.len() >= 2 && w < 34 {
-            // n-ary decision chain  [x1] | [-x1 x2] | [-x1 -x2]
+            // n-ary decision chain  [x1] | [-x1 x2] | [-x1 -x2 x3] | .. | [-x1 .. -xk]   (k+1 alternatives, k = 2..5)
             id = self.node('o');
             self.stats.ors += 1; self.stats.nary_ors += 1;
             let mut vs = vars.to_vec(); self.rng.shuffle(&mut vs);
-            let (x1, x2) = (vs[0] as i32, vs[1] as i32);
-            let (s1, s2) = (if self.rng.chance(0.5) { 1 } else { -1 }, if self.rng.chance(0.5) { 1 } else { -1 });
-            let rem1: Vec<u32> = vars.iter().copied().filter(|&v| v as i32 != x1).collect();
-            let rem2: Vec<u32> = rem1.iter().copied().filter(|&v| v as i32 != x2).collect();
-            let labels = vec![vec![s1 * x1], vec![-s1 * x1, s2 * x2], vec![-s1 * x1, -s2 * x2]];
-            let dead = if self.rng.chance(0.15) { Some(self.rng.below(3)) } else { None };
+            let k = 2 + self.rng.below((vs.len() - 1).min(4));
+            let chain: Vec<i32> = vs[..k].iter().map(|&v| if self.rng.chance(0.5) { v as i32 } else { -(v as i32) }).collect();
+            let mut labels: Vec<Vec<i32>> = Vec::new();
+            for j in 0..k { let mut l: Vec<i32> = chain[..j].iter().map(|x| -x).collect(); l.push(chain[j]); labels.push(l); }
+            labels.push(chain.iter().map(|x| -x).collect());
+            let dead = if self.rng.chance(0.15) { Some(self.rng.below(labels.len())) } else { None };
             for (j, lab) in labels.into_iter().enumerate() {
                 if dead == Some(j) { continue; }
-                let rem = if j == 0 { &rem1 } else { &rem2 };
-                let sub = self.subset(rem, 0.8);
+                let used = lab.len();
+                let rem: Vec<u32> = vars.iter().copied().filter(|&v| !chain[..used.min(k)].iter().any(|c| c.unsigned_abs() == v)).collect();
+                let sub = self.subset(&rem, 0.8);
                 let child = self.gen(&sub, depth.saturating_sub(1), false);
                 self.edges.push((id, child, lab));
             }
@@ -327,23 +328,23 @@ impl<'a> C2B<'a> {
                 g1.sort(); g2.sort();
                 let a = self.gen(&g1, depth - 1); let b = self.gen(&g2, depth - 1);
                 self.and(&[a, b])
-            } else if w < 37 && vars.len() >= 3 {
-                // n-ary decision chain
+            } else if w < 40 && vars.len() >= 3 {
+                // n-ary decision chain over k = 2..5 variables: k+1 alternatives
                 let mut vs = vars.to_vec(); self.rng.shuffle(&mut vs);
-                let (x1, x2) = (vs[0] as i32, vs[1] as i32);
-                let mut rem2: Vec<u32> = vs[2..].to_vec(); rem2.sort();
-                let mut rem1: Vec<u32> = vs[1..].to_vec(); rem1.sort();
-                let c1 = self.gen(&rem1, depth - 1);
-                let l1 = self.lit(x1);
-                let b1 = self.and(&[l1, c1]);
-                let c2 = self.gen(&rem2, depth - 1);
-                let (m1, p2) = (self.lit(-x1), self.lit(x2));
-                let b2 = self.and(&[m1, p2, c2]);
-                let c3 = self.gen(&rem2, depth - 1);
-                let m2 = self.lit(-x2);
-                let b3 = self.and(&[m1, m2, c3]);
-                let mut bs = vec![b1, b2, b3];
-                if self.rng.chance(0.2) { bs.remove(self.rng.below(3)); }
+                let k = 2 + self.rng.below((vs.len() - 1).min(4));
+                let chain: Vec<i32> = vs[..k].iter().map(|&v| if self.rng.chance(0.5) { v as i32 } else { -(v as i32) }).collect();
+                let mut bs = Vec::new();
+                for j in 0..=k {
+                    // alternative j: -c1 .. -c(j) c(j+1)   (the last one: all negated); the other chain variables stay free below
+                    let fixed = (j + 1).min(k);
+                    let mut cs: Vec<usize> = Vec::new();
+                    for (i, c) in chain[..fixed].iter().enumerate() { let l = if i < j { -*c } else { *c }; cs.push(self.lit(if j == k { -*c } else { l })); }
+                    let mut rem: Vec<u32> = vars.iter().copied().filter(|&v| !chain[..fixed].iter().any(|c| c.unsigned_abs() == v)).collect();
+                    rem.sort();
+                    if !rem.is_empty() { let c = self.gen(&rem, depth - 1); cs.push(c); }
+                    bs.push(self.and(&cs));
+                }
+                if self.rng.chance(0.2) { bs.remove(self.rng.below(bs.len())); }
                 self.or(0, &bs)
             } else {
                 let x = *self.rng.pick(vars) as i32;
